@@ -66,6 +66,10 @@ def tuner_product(case, kind, attr=None, target=None):
     for t in case['tuners']:
         if t['kind'] == kind and t.get('attr') == attr and t.get('target') == target:
             p *= fr(t['value'])
+        elif t['kind'] in ('shifthp', 'split') and kind == 'shift' and t.get('target') == target:
+            # one effect, two modifiers: the shift amount of this hardener and an attribute the simulator does
+            # not care about (the ship's armor hit points / another hardener's cpu need)
+            p *= fr(t['value'])
         elif t['kind'] == 'combo' and t.get('target') == target and (
                 (kind == 'rahres' and t.get('attr') == attr) or kind == 'cycle'):
             # one effect with two modifiers on the same hardener: a resonance and the cycle time
@@ -174,6 +178,10 @@ class World:
         ch.mkattr(HEAT, high_is_good=False, stackable=True)
         ch.mkattr(TUNE, high_is_good=False, stackable=True)
         ch.mkattr(self.SHIFT, high_is_good=True, stackable=True)
+        from eos.const.eve import AttrId as _A
+        # two attributes the simulator does not care about (see the 'shifthp' / 'split' tuners)
+        ch.mkattr(_A.armor_hp, default_value=1000, high_is_good=True, stackable=True)
+        ch.mkattr(_A.cpu, default_value=10, high_is_good=False, stackable=True)
         self.rah_effect = ch.mkeffect(
             EffectId.adaptive_armor_hardener, category_id=EffectCategoryId.active,
             duration_attr_id=CYCLE)
@@ -252,7 +260,8 @@ class World:
                 affectee_attr_id=self.A[t['attr']], operator=ModOperator.post_mul,
                 aggregate_mode=ModAggregateMode.stack, affector_attr_id=TUNE)
         else:
-            attr = {'rahres': None, 'combo': None, 'shift': self.SHIFT, 'cycle': CYCLE}[t['kind']]
+            attr = {'rahres': None, 'combo': None, 'shift': self.SHIFT, 'cycle': CYCLE,
+                    'shifthp': self.SHIFT, 'split': self.SHIFT}[t['kind']]
             if attr is None:
                 attr = self.A[t['attr']]
             mod = DogmaModifier(
@@ -270,6 +279,34 @@ class World:
                 affectee_domain=ModDomain.ship, affectee_attr_id=CYCLE,
                 operator=ModOperator.post_mul,
                 aggregate_mode=ModAggregateMode.stack, affector_attr_id=TUNE))
+        if t['kind'] == 'shifthp':
+            # ... and a ship attribute that is no resonance, already calculated (so that it is reported in
+            # the same message as the hardener's change)
+            from eos.const.eve import AttrId
+            mods.append(DogmaModifier(
+                affectee_filter=ModAffecteeFilter.item, affectee_domain=ModDomain.ship,
+                affectee_attr_id=AttrId.armor_hp, operator=ModOperator.post_mul,
+                aggregate_mode=ModAggregateMode.stack, affector_attr_id=TUNE))
+            try:
+                self.fit.ship.attrs.get(AttrId.armor_hp)
+            except Exception:  # noqa: no ship / unloaded ship
+                pass
+        if t['kind'] == 'split' and len(self.rahs) > 1:
+            # ... and an attribute of ANOTHER hardener that the simulator does not care about, already calculated
+            from eos.const.eve import AttrId
+            other = (t['target'] + 1) % len(self.rahs)
+            mods.insert(0, DogmaModifier(
+                affectee_filter=ModAffecteeFilter.domain_group,
+                affectee_filter_extra_arg=500 + other,
+                affectee_domain=ModDomain.ship, affectee_attr_id=AttrId.cpu,
+                operator=ModOperator.post_mul,
+                aggregate_mode=ModAggregateMode.stack, affector_attr_id=TUNE))
+            for m in self.rahs:
+                try:
+                    m.attrs.get(AttrId.cpu)
+                    m.attrs.get(self.SHIFT)
+                except Exception:  # noqa
+                    pass
         eff = self.ch.mkeffect(self.next_effect, category_id=EffectCategoryId.passive,
                                modifiers=mods)
         tid = self.fresh_id()
@@ -697,7 +734,7 @@ def gen_rah(rng, mode, odd=True):
 
 
 def gen_tuner(rng, mode, nrah, kind=None):
-    kind = kind or rng.choice(['ship', 'rahres', 'shift', 'cycle', 'combo'])
+    kind = kind or rng.choice(['ship', 'rahres', 'shift', 'cycle', 'combo', 'shifthp', 'split'])
     if mode == 'exact':
         value = rng.choice(['0.5', '0.75', '0.875', '0.5', '0.25'])
         if kind == 'cycle':
@@ -807,7 +844,7 @@ def gen_setup(rng, mode):
         return case
 
 
-OPKINDS = ['pdef', 'prah', 'ship_attr', 'rah_attr', 'rah_combo', 'shift', 'cycle', 'state', 'ship_replace',
+OPKINDS = ['pdef', 'prah', 'ship_attr', 'rah_attr', 'rah_combo', 'shift', 'shift_hp', 'shift_split', 'cycle', 'state', 'ship_replace',
            'ship_remove_add', 'tuner-']
 
 
@@ -851,6 +888,10 @@ def gen_history(rng, mode):
                 op = [['tuner+', gen_tuner(rng, mode, n, 'combo')]]
             elif kind == 'shift':
                 op = [['tuner+', gen_tuner(rng, mode, n, 'shift')]]
+            elif kind == 'shift_hp':
+                op = [['tuner+', gen_tuner(rng, mode, n, 'shifthp')]]
+            elif kind == 'shift_split':
+                op = [['tuner+', gen_tuner(rng, mode, n, 'split')]]
             elif kind == 'cycle':
                 op = [['tuner+', gen_tuner(rng, mode, n, 'cycle')]]
             elif kind == 'state':
